@@ -2,7 +2,7 @@
 (* C05 (and the value half of C14): every recorded call of the arithmetic layer is recomputed with the
    reference semantics ref/ZZ.tla, WW.tla, PP.tla, WordOps.tla (over lib/BigNat.tla, lib/GF2Poly.tla).
    One ndjson line per call (harness/drv_arith.c):
-     fam  "zz" | "ww" | "pp" | "word" | "qr" | "py"       family
+     fam  "zz" | "ww" | "pp" | "word" | "qr" | "gf2" | "py"     family
      op   function name          ed  "def" | "safe" | "fast" (edition called by name; same specification)
      W    bits per machine word  n, m  operand lengths in words
      operands / results: arrays of 16-bit limbs (little-endian); flags and sizes: integers
@@ -171,6 +171,19 @@ LineQR(r) ==
     [] r.op = "qrFrom" -> Flag(r.ret, Less(O(r.a), md))
     [] OTHER -> FALSE
 
+\* fields GF(2^m) = GF(2)[x]/(x^m + x^k [+ x^l + x^l1] + 1) created by gf2Create; elements travel as octet strings
+GPoly(r) == IF r.l = 0 THEN Trinomial(r.m, r.k) ELSE Pentanomial(r.m, r.k, r.l, r.l1)
+GP(x) == LimbsOfOctets(x)
+IsG(x, v, r) == PEq(GP(x), v) /\ PDeg(GP(x)) < r.m
+LineGF2(r) ==
+  LET f == GPoly(r) IN
+  CASE r.op = "qrAdd" -> IsG(r.out, PAdd(GP(r.a), GP(r.b)), r)
+    [] r.op = "qrMul" -> IsG(r.out, PMulMod(GP(r.a), GP(r.b), f), r)
+    [] r.op = "qrSqr" -> IsG(r.out, PMulMod(GP(r.a), GP(r.a), f), r)
+    [] r.op = "qrInv" -> IsG(r.out, PInvMod(GP(r.a), f), r)
+    [] r.op = "qrDiv" -> IsG(r.out, PMulMod(GP(r.b), PInvMod(GP(r.a), f), f), r)
+    [] OTHER -> FALSE
+
 \* self-validation of the libraries against results computed by Python's integers / bit operations
 LinePy(r) ==
   CASE r.op = "add"    -> IsN(r.c, Add(N(r.a), N(r.b)))
@@ -204,6 +217,7 @@ LineOk(r) ==
     [] r.fam = "pp"   -> LinePP(r)
     [] r.fam = "word" -> LineWord(r)
     [] r.fam = "qr"   -> LineQR(r)
+    [] r.fam = "gf2"  -> LineGF2(r)
     [] r.fam = "py"   -> LinePy(r)
     [] OTHER -> FALSE                      \* unknown family / op = rejected, never silently ok
 
